@@ -1,6 +1,7 @@
 package constraint
 
 import (
+	"regexp"
 	"time"
 
 	schema "github.com/jsightapi/jsight-schema-core"
@@ -34,10 +35,16 @@ func (DateTime) String() string {
 	return DateTimeConstraintType.String()
 }
 
+// rfc3339DateTime the grammar of an RFC 3339 date-time. time.Parse alone also takes
+// a one-digit hour, a comma before the fraction of a second and zone offsets beyond
+// 23:59, none of which the RFC allows.
+var rfc3339DateTime = regexp.MustCompile(
+	`^\d{4}-\d{2}-\d{2}T\d{2}:\d{2}:\d{2}(\.\d+)?(Z|[+-]([01]\d|2[0-3]):[0-5]\d)$`)
+
 func (DateTime) Validate(value bytes.Bytes) {
 	str := value.Unquote().String()
 	_, err := time.Parse(time.RFC3339, str)
-	if err != nil {
+	if err != nil || !rfc3339DateTime.MatchString(str) {
 		panic(errs.ErrInvalidDateTime.F())
 	}
 }
